@@ -383,7 +383,7 @@ pub fn h_eqv_known_int_vs_ratio(s: &mut In) -> HR {
 // ====================================================================================
 // R = f32: the facts the Verus prelude assumes about the abstract inexact type
 // ====================================================================================
-//@ props C09 C10
+//@ props C09 C10 C07
 //@ role decisive
 pub fn h_f32_conversions(s: &mut In) -> HR {
     let a = s.i32();
@@ -391,5 +391,9 @@ pub fn h_f32_conversions(s: &mut In) -> HR {
     let wide: i64 = (a as i64) * (b as i64);
     vcheck!("R::from(i32) at f32 is Some(x as f32)", <f32 as num_traits::NumCast>::from(a) == Some(a as f32));
     vcheck!("R::from(i64) at f32 is Some(x as f32)", <f32 as num_traits::NumCast>::from(wide) == Some(wide as f32));
+    // literal conversion: a parsed f64 always converts (eval_primitive unwraps this)
+    let bits = ((a as u32 as u64) << 32) | (b as u32 as u64);
+    let d = f64::from_bits(bits);
+    vcheck!("R::from(f64) at f32 is Some", <f32 as num_traits::NumCast>::from(d).is_some());
     Ok(())
 }
